@@ -487,13 +487,13 @@ func (ex *Exec) evalBinary(st *State, e *ast.BinaryExpr) Val {
 		// evaluate the right operand under the short-circuit condition
 		r := st.clone()
 		nb := len(r.facts)
-		r.assume(cond)
+		r.assumeBranch(cond)
 		nstart := len(r.facts)
 		mut0 := ex.mutCount
 		rv := ex.eval(r, e.Y).term()
 		if ex.mutCount != mut0 || r.ctr != st.ctr {
 			other := st.clone()
-			other.assume(Not(cond))
+			other.assumeBranch(Not(cond))
 			m := mergeStates(cond, r, other, nb)
 			*st = *m
 		} else {
